@@ -386,6 +386,11 @@ class Process:
             # https://github.com/giampaolo/psutil/issues/2366#issuecomment-2381646555
             self._create_time = self._proc.create_time(fast_only=True)
             return (self.pid, self._create_time)
+        elif LINUX:
+            # Use the process start time relative to boot: contrarily to
+            # create_time() it does not change when the system clock
+            # (hence boot_time()) is updated.
+            return (self.pid, self._proc.create_time(monotonic=True))
         else:
             return (self.pid, self.create_time())
 
